@@ -523,7 +523,8 @@ where
     fn next(&mut self) -> Option<Self::Item> {
         self.iter.next().map(|e| match e {
             PoeticNumberLiteralElem::Dot => PoeticNumberLiteralIteratorItem::Dot,
-            PoeticNumberLiteralElem::Word(s) => self
+            // a suffix with no word before it (`X is (c)'s`, `X is a. -b`) stands as its own word
+            PoeticNumberLiteralElem::Word(s) | PoeticNumberLiteralElem::WordSuffix(s) => self
                 .iter
                 .peek()
                 .filter(|e| matches!(e, PoeticNumberLiteralElem::WordSuffix(_)))
@@ -532,7 +533,6 @@ where
                     PoeticNumberLiteralIteratorItem::SuffixedWord(s, self.greedily_match_suffixes())
                 })
                 .unwrap_or_else(|| PoeticNumberLiteralIteratorItem::Word(s)),
-            PoeticNumberLiteralElem::WordSuffix(_) => unreachable!(),
         })
     }
 }
